@@ -15,6 +15,7 @@ exact box integrals for the change of variables and the divergence theorem.
 import os, json, traceback, hashlib
 import numpy
 from vlib.runner import Result, rng_for
+from vlib import runner as _runner
 from vlib import tolerance
 from vlib import c08_meshes as meshes
 from vlib import c08_geo as geo
@@ -27,7 +28,7 @@ RULE = ('case = (mesh spec from own generator: line / rectilinear 1-3D uniform+g
         'each with a random history of refined / refined_by) x (geometry: random affine map of either orientation, singular values in [.6,1.8], '
         'plus quadratic/cubic perturbation with Lipschitz constant <= .5 on the normalised domain) x (random sparse polynomial scalar/vector/tensor '
         'field of degree <= 4) x (sample scheme). kinds: pointwise (interior/boundary/interface + same points located on another parametrisation), '
-        'integral (closed forms, refinement invariance, divergence theorem global and element-wise), trimmed (topo.trim by planes/spheres in root or physical coordinates, maxrefine 0-2, on simplex/square/mixed meshes incl. uniformly refined ones: normals on all facets incl. the trimmed group, divergence theorem over the same trimmed topology), manifold_bnd (surface operators on boundaries/'
+        'integral (closed forms, refinement invariance, divergence theorem global and element-wise), basislevel (geometry and fields expressed in a std/spline/h-/th- basis of degree 1-2 of a level-k topology, evaluated and integrated on level k+1/k+2/hierarchical/trimmed topologies, their boundaries and interfaces, with exact references and a cross-check against the original expressions), trimmed (topo.trim by planes/spheres in root or physical coordinates, maxrefine 0-2, on simplex/square/mixed meshes incl. uniformly refined ones: normals on all facets incl. the trimmed group, divergence theorem over the same trimmed topology), manifold_bnd (surface operators on boundaries/'
         'interfaces of a volume mesh), manifold_emb (codimension-1 embedding of a 1-2D mesh), product (per-space operators via spaces=). '
         'non-trivial = at least one identity with a non-constant reference was compared on >=1 point; distinct = hash of '
         '(kind, mesh spec, geometry, field, samples)')
@@ -38,16 +39,20 @@ ASSUMPTIONS = ['the oracle (vlib/c08_poly.py: sparse multivariate polynomials, n
 BUDGET_S = {'quick': 110, 'thorough': 1500}
 if os.environ.get('VERIF_C08_BUDGET'):   # development aid only (overloaded machine)
     BUDGET_S = {k: int(os.environ['VERIF_C08_BUDGET']) for k in BUDGET_S}
-NCASES = {'quick': 440, 'thorough': 6000}
+NCASES = {'quick': 480, 'thorough': 6000}
 if os.environ.get('VERIF_C08_NCASES'):   # development aid only
     NCASES = {k: int(os.environ['VERIF_C08_NCASES']) for k in NCASES}
 CHUNK = 8
-KINDS = ['pointwise', 'pointwise', 'trimmed', 'integral', 'integral', 'manifold_bnd', 'manifold_emb', 'product']
+KINDS = ['pointwise', 'pointwise', 'trimmed', 'integral', 'basislevel', 'manifold_bnd', 'manifold_emb', 'product']
 TRI_MAXDEG, TET_MAXDEG, TENSOR_MAXDEG = 6, 7, 12
 
 
+def ncases(tier):
+    return _runner.scaled(NCASES[tier]) if hasattr(_runner, 'scaled') else NCASES[tier]
+
+
 def plan(tier, seed):
-    n = NCASES[tier]
+    n = ncases(tier)
     return [dict(start=i, stop=min(n, i + CHUNK)) for i in range(0, n, CHUNK)]
 
 
@@ -60,6 +65,7 @@ class Checker:
         self.res, self.case = res, case
         self.nontrivial = False
         self.failed = False
+        self.reach = None     # extra counter name incremented by every comparison (reach floors)
 
     def cmp(self, name, skind, obs, ref, scale=1., nontrivial=True):
         res = self.res
@@ -69,6 +75,8 @@ class Checker:
         res.count(f'ident_by_sample/{skind}/{name}')
         res.count('comparisons')
         res.count('values_compared', int(ref.size))
+        if self.reach:
+            res.count(self.reach)
         v, det = tolerance.compare(obs, ref, scale=scale, check_kind=False)
         if ref.size and nontrivial:
             self.nontrivial = True
@@ -92,6 +100,8 @@ class Checker:
         res.count(f'ident_by_sample/{skind}/{name}')
         res.count('comparisons')
         res.count('values_compared', int(val.size))
+        if self.reach:
+            res.count(self.reach)
         if val.size:
             self.nontrivial = True
         rel = val / scale
@@ -193,7 +203,7 @@ def measure_ratio(D, nu=None):
     return out
 
 
-def check_facet_normals(ck, sc, smp, skind, G, N, cent=None, ethis=None, eopp=None, D=None, exact_from_faces=True):
+def check_facet_normals(ck, sc, smp, skind, G, N, cent=None, ethis=None, eopp=None, D=None, exact_from_faces=True, allow_offbox=False):
     """All normal monitors on a boundary/interface sample of the scene.  N: observed normals (npoints, m)."""
     res = ck.res
     lo, hi = sc.b.lo, sc.b.hi
@@ -221,7 +231,7 @@ def check_facet_normals(ck, sc, smp, skind, G, N, cent=None, ethis=None, eopp=No
     cov = numpy.einsum('kmn,km->kn', D, N)
     if skind.startswith('boundary') and exact_from_faces:
         nfaces, nref = box_faces(G, lo, hi)
-        if (nfaces == 0).any():
+        if (nfaces == 0).any() and not allow_offbox:
             res.count('harness/boundary_point_not_on_box')
             res.note(f'boundary point not on the box for mesh {sc.b.desc}')
         one = nfaces == 1
@@ -427,6 +437,37 @@ def gen_case(seed, i, tier):
         case['field'] = ptojson(geo.random_field(rng, n, random_shape(rng, n)[:1], int(rng.integers(1, 4))))
         case['F'] = ptojson(geo.random_field(rng, n, (n,), kF))
         case['wseed'] = int(rng.integers(0, 2**31))
+    elif kind == 'basislevel':
+        n = int(rng.choice([1, 2, 3], p=[.15, .6, .25]))
+        spec = meshes.random_spec(rng, n, tier, kinds=['line', 'rect', 'simplex', 'unitsquare:square', 'unitsquare:triangle', 'unitsquare:mixed'], history=False)
+        if n == 3:   # keep the level k+2 meshes small
+            spec = dict(kind='rect', nodes=[meshes.random_nodes(rng, 2) for _ in range(3)]) if spec['kind'] == 'rect' else \
+                dict(kind='simplex', shape=[1, 1, 1], extent=spec['extent'], seed=spec['seed'], amount=spec['amount'])
+        structured = spec['kind'] in ('line', 'rect') or spec.get('etype') == 'square'
+        uniform = structured and (spec['kind'] == 'unitsquare' or all(isinstance(v, int) for v in (spec['nodes'] if spec['kind'] == 'rect' else [spec['nodes']])))
+        # the topology the basis lives on: level 0, level 1, or a hierarchical refinement
+        bh = [[], [['refined']], [['refined_by', [round(float(f), 4) for f in rng.random(int(rng.integers(1, 3)))]]]][int(rng.choice(3, p=[.3, .45, .25]))]
+        if n == 3 and bh and bh[0][0] == 'refined' and rng.random() < .5:
+            bh = []
+        d = int(rng.choice([1, 2]))
+        btype = 'spline' if uniform and rng.random() < .4 else 'std'
+        # the finer topology the functions are evaluated on
+        fr = lambda: [round(float(f), 4) for f in rng.random(int(rng.integers(1, 4)))]
+        opts = [[['refined']], [['refined'], ['refined']], [['refined_by', fr()]], [['refined'], ['refined_by', fr()]]]
+        p = [.4, .2, .2, .2] if n < 3 else [.6, .0, .3, .1]
+        eh = opts[int(rng.choice(4, p=p))]
+        lo, hi = spec_extent(spec)
+        gd = int(rng.integers(1, d + 1))
+        case.update(mesh=spec, basis_hist=bh, eval_hist=eh, btype=btype, bdegree=d, geom=geo.gen_geometry(rng, lo, hi, gd))
+        # trim only uniformly refined levels (trim of a hierarchical topology has no boundary/interfaces: not C08's subject)
+        if n == 2 and rng.random() < .3 and all(op[0] == 'refined' for op in bh + eh):
+            dd = rng.normal(size=2)
+            case['trim'] = dict(shape='plane', coords='root', sign=float(rng.choice([-1., 1.])), p0=[round(float(v), 4) for v in rng.uniform(-.35, .35, 2)],
+                                a=[round(float(v), 5) for v in dd / numpy.linalg.norm(dd)], r=.5, maxrefine=int(rng.integers(0, 2)))
+        case['field'] = ptojson(geo.random_field(rng, n, random_shape(rng, n)[:1], d))
+        case['F'] = ptojson(geo.random_field(rng, n, (n,), d))
+        case['samples'] = pick_samples(rng, n, tier)
+        case['parts'] = [['interior'], ['boundary'], ['interface'], ['integral']][int(rng.choice(4, p=[.3, .25, .15, .3]))]
     elif kind == 'manifold_bnd':
         n = int(rng.choice([2, 3], p=[.6, .4]))
         spec = random_mesh(rng, n, tier)
@@ -541,7 +582,7 @@ def execute(case, res):
     try:
         try:
             {'pointwise': run_pointwise, 'integral': run_integral, 'manifold_bnd': run_manifold_bnd,
-             'manifold_emb': run_manifold_emb, 'product': run_product, 'trimmed': run_trimmed}[case['kind']](case, ck)
+             'manifold_emb': run_manifold_emb, 'product': run_product, 'trimmed': run_trimmed, 'basislevel': run_basislevel}[case['kind']](case, ck)
         except meshes.Refused as e:
             res.count('refusal/' + str(e)[:80])
             res.count('cases_refused')
@@ -1131,6 +1172,181 @@ def run_trimmed(case, ck):
         ck.cmp('element-wise divergence theorem on trimmed domain', 'interface' if len(ifc) else 'boundary', [BI[2] - t2 - VI[2]], [0.], scale=dscale * 2)
 
 
+def run_basislevel(case, ck):
+    """Geometry and fields expressed in a basis (std/spline, hierarchical variants) of a level-k topology and
+    evaluated / integrated on strictly finer topologies (level k+1, k+2, hierarchical, trimmed).  The coefficients
+    come from the oracle polynomials (least squares on the unisolvent bezier lattice, residual must vanish), so the
+    basis-defined functions equal the polynomials x=Phi(g), q(g), Q(g) exactly and every identity has an exact
+    reference; each quantity is also cross-checked against the same quantity built from the original expressions."""
+    from nutils import function
+    res = ck.res
+    ck.reach = 'basislevel/identities with basis level coarser than sample level'
+    gj = case['geom']
+    b = meshes.build(case['mesh'])
+    n = b.n
+    g = b.geom
+    sc = Scene.__new__(Scene)
+    sc.b, sc.g, sc.gj, sc.n, sc.m, sc.style = b, g, gj, n, n, case['style']
+    sc.Phi = geo.geometry_polys(gj)
+    sc.DPhi = pgrad(sc.Phi, n)
+    tk = meshes.apply_history(b.topo, case['basis_hist'])
+    hier = bool(case['basis_hist']) and case['basis_hist'][0][0] == 'refined_by'
+    d = case['bdegree']
+    btype = ('th-' if (case['index'] // len(KINDS)) % 2 else 'h-') + case['btype'] if hier else case['btype']
+    try:
+        basis = tk.basis(btype, degree=d)
+    except (NotImplementedError, AssertionError, ValueError) as e:
+        raise meshes.Refused(f'basis {btype} degree {d} on {type(tk).__name__}: {type(e).__name__}')
+    q = pfromjson(case['field'])
+    Q = pfromjson(case['F'])
+    B, Gk = tk.sample('bezier', d + 1).eval([basis, g])
+    targets = numpy.concatenate([peval(sc.Phi, Gk), peval(q, Gk).reshape(len(Gk), -1), peval(Q, Gk)], axis=1)
+    coef = numpy.linalg.lstsq(B, targets, rcond=None)[0]
+    resid = float(numpy.abs(B @ coef - targets).max())
+    if resid > 1e-10 * max(1., float(numpy.abs(targets).max())):
+        res.count(f'skipped/basis {btype}{d} does not reproduce the polynomial (residual)')
+        res.note(f'basis {btype} degree {d} on {b.desc} {case["basis_hist"]}: residual {resid:.2e}')
+        return
+    nq = int(numpy.prod(q.shape)) if q.shape else 1
+    xh = coef[:, :n].T @ basis
+    qh = coef[:, n:n + nq].T @ basis
+    qh = numpy.reshape(qh, q.shape) if q.shape else qh[0]
+    Qh = coef[:, n + nq:].T @ basis
+    sc.x = xh
+    # the same things from the original expressions
+    xo = geo.nutils_geometry(gj, g, case['style'])
+    gs = [g[i] for i in range(n)]
+    qo = geo.nutils_parray(q, gs, case['style'])
+    topo = meshes.apply_history(tk, case['eval_hist'])
+    trimmed = 'trim' in case
+    if trimmed:
+        phi, rad = levelset_poly(case['trim'], gj, sc.Phi)
+        topo = topo.trim(levelset_nutils(case['trim'], gj, g, xo, sc.Phi, rad), maxrefine=case['trim']['maxrefine'])
+        if len(topo) == 0:
+            res.count('empty/trimmed topology')
+            return
+    sc.topo = topo
+    res.count('basislevel/cases')
+    res.count(f"basislevel/basis on {'hierarchical' if hier else 'level %d' % len(case['basis_hist'])}, evaluated on +{'+'.join(op[0] for op in case['eval_hist'])}{'+trim' if trimmed else ''}")
+    res.count(f'basislevel/{btype} degree {d}')
+    affine_geom = pmaxdegree(sc.Phi) <= 1
+
+    # exact references in terms of the parameter-space polynomials
+    dq = pgrad(q, n)
+    ddq = pgrad(dq, n)
+
+    def refs(G):
+        Dinv = numpy.linalg.inv(peval(sc.DPhi, G))
+        gr = numpy.einsum('k...j,kji->k...i', peval(dq, G), Dinv)
+        out = dict(grad=gr)
+        if q.shape == (n,):
+            out['div'] = numpy.einsum('kii->k', gr)
+            out['symgrad'] = .5 * (gr + numpy.swapaxes(gr, -1, -2))
+            if n == 3:
+                out['curl'] = numpy.stack([gr[..., 2, 1] - gr[..., 1, 2], gr[..., 0, 2] - gr[..., 2, 0], gr[..., 1, 0] - gr[..., 0, 1]], axis=-1)
+        if affine_geom:
+            H = numpy.einsum('kai,k...ab,kbj->k...ij', Dinv, peval(ddq, G), Dinv)
+            out['laplace'] = numpy.einsum('k...ii->k...', H)
+        return out
+
+    def nutils_ops(f, x):
+        ops = dict(grad=function.grad(f, x))
+        if q.shape == (n,):
+            ops.update(div=function.div(f, x), symgrad=function.symgrad(f, x))
+            if n == 3:
+                ops['curl'] = function.curl(f, x)
+        if affine_geom:
+            ops['laplace'] = function.laplace(f, x)
+        return ops
+
+    def opscale(G):
+        Dinv = numpy.linalg.inv(peval(sc.DPhi, G))
+        s1 = float(pabs(dq, G).max()) * float(numpy.abs(Dinv).max()) * n
+        return dict(grad=s1, div=s1 * n, symgrad=s1, curl=2 * s1, laplace=float(pabs(ddq, G).max()) * float(numpy.abs(Dinv).max())**2 * n**3)
+
+    parts = case['parts']
+    Jx, Jg, Jo = function.J(xh), function.J(g), function.J(xo)
+    smp = topo.sample(*case['samples']['interior'])
+    if 'interior' in parts:
+        ops = nutils_ops(qh, xh)
+        named = dict(g=g, x=xh, Jx=Jx, Jg=Jg, Jo=Jo, grad_o=function.grad(qo, xo))
+        named.update(ops)
+        V = eval_named(smp, named)
+        G = V['g']
+        res.count('points/basislevel-interior', len(G))
+        ck.cmp('x_h==Phi(g)', 'interior', V['x'], peval(sc.Phi, G), scale=float(pabs(sc.Phi, G).max()))
+        R, S = refs(G), opscale(G)
+        for k in ops:
+            ck.cmp(k, 'interior', V[k], R[k], scale=S[k])
+        ck.cmp('J(x)==|det DPhi| J(g)', 'interior', V['Jx'], numpy.abs(numpy.linalg.det(peval(sc.DPhi, G))) * V['Jg'])
+        ck.cmp('basis-defined == original expression: J', 'interior', V['Jx'], V['Jo'])
+        ck.cmp('basis-defined == original expression: grad', 'interior', V['grad'], V['grad_o'], scale=S['grad'])
+        return
+    cent = None
+    fidx = None
+    if not trimmed and ('boundary' in parts or 'interface' in parts):
+        cent = centroids_of(smp, smp.eval(g))
+        fidx = try_f_index(topo, res)
+    for skind in ('boundary', 'interface'):
+        if skind not in parts:
+            continue
+        ftopo = topo.boundary if skind == 'boundary' else topo.interfaces
+        if len(ftopo) == 0:
+            res.count(f'empty/{skind}')
+            continue
+        fs = ftopo.sample(*case['samples'][skind])
+        nrm = function.normal(xh)
+        named = dict(g=g, x=xh, n=nrm, Jx=Jx, Jg=Jg, Jo=Jo, n_o=function.normal(xo), grad=function.grad(qh, xh), sg=function.surfgrad(qh, xh))
+        if fidx is not None:
+            named['ethis'] = fidx
+        if skind == 'interface':
+            named.update(nopp=function.opposite(nrm), jumpx=function.jump(xh), jumpgrad=function.jump(named['grad']))
+            if fidx is not None:
+                named['eopp'] = function.opposite(fidx)
+        V = eval_named(fs, named)
+        G, N = V['g'], V['n']
+        res.count(f'points/basislevel-{skind}', len(G))
+        R, S = refs(G), opscale(G)
+        ck.cmp('x_h==Phi(g)', skind, V['x'], peval(sc.Phi, G), scale=float(pabs(sc.Phi, G).max()))
+        ck.cmp('grad', skind, V['grad'], R['grad'], scale=S['grad'])
+        D, cov = check_facet_normals(ck, sc, fs, skind, G, N, cent, V.get('ethis'), V.get('eopp'), allow_offbox=trimmed)
+        ck.cmp('J(x)==|cof DPhi nu| J(g)', skind, V['Jx'], measure_ratio(D, normalize(cov)) * V['Jg'])
+        Pr = numpy.eye(n) - numpy.einsum('ki,kj->kij', N, N)
+        ck.cmp('surfgrad f==(I-nn^T) p\'(x)', skind, V['sg'], numpy.einsum('k...j,kij->k...i', R['grad'], Pr), scale=S['grad'])
+        ck.cmp('basis-defined == original expression: J', skind, V['Jx'], V['Jo'])
+        ck.cmp('basis-defined == original expression: normal', skind, N, V['n_o'])
+        if skind == 'interface':
+            ck.cmp('n+opposite(n)=0', skind, N + V['nopp'], numpy.zeros_like(N))
+            ck.cmp('jump(x)=0', skind, V['jumpx'], numpy.zeros_like(N), scale=float(pabs(sc.Phi, G).max()))
+            ck.cmp('jump(grad p)=0', skind, V['jumpgrad'], numpy.zeros_like(R['grad']), scale=S['grad'])
+    if 'integral' in parts:
+        lo, hi = b.lo, b.hi
+        detD = pdet(sc.DPhi)
+        sgn = 1. if detD(((lo + hi) / 2)[None])[0] > 0 else -1.
+        from vlib.c08_poly import pcofactor
+        cof = pcofactor(sc.DPhi)                      # DPhi^-1 = cof^T / det
+        dQ = pgrad(Q, n)
+        divint = sum((dQ[i, j] * cof[i, j] for i in range(n) for j in range(n)), Poly(n)) * sgn     # tr(DQ DPhi^-1) |det|
+        gd = pmaxdegree(sc.Phi)
+        vdeg = max(integral_degree(divint, 0), integral_degree(detD, 0))
+        bdeg = max(0, pmaxdegree(Q)) + (n - 1) * max(0, gd - 1)
+        nrm = function.normal(xh)
+        VI = topo.integrate([function.div(Qh, xh) * Jx, Jx, Jo], degree=vdeg)
+        BI = topo.boundary.integrate([(Qh @ nrm) * Jx, Jx], degree=bdeg)
+        res.maximum('max_gauss_degree', max(vdeg, bdeg))
+        Gp = box_probe_points(lo, hi)
+        Dinvmax = float(numpy.abs(numpy.linalg.inv(peval(sc.DPhi, Gp))).max())
+        dscale = max(1., float(pabs(Q, Gp).max()) * abs(BI[1]), float(pabs(dQ, Gp).max()) * Dinvmax * n * n * abs(VI[1]))
+        ck.cmp('basis-defined == original expression: int J', 'interior', [VI[1]], [VI[2]])
+        if trimmed:
+            ck.cmp('divergence theorem on trimmed domain: boundary integral == volume integral', 'boundary(trimmed domain)', [BI[0]], [VI[0]], scale=dscale)
+        else:
+            ck.cmp('int J == closed form volume', 'interior', [VI[1]], [(detD * sgn).integrate_box(lo, hi)])
+            exact = divint.integrate_box(lo, hi)
+            ck.cmp('divergence theorem: boundary integral == closed form of int div F', 'boundary', [BI[0]], [exact], scale=dscale)
+            ck.cmp('divergence theorem: volume integral == closed form of int div F', 'interior', [VI[0]], [exact], scale=dscale)
+
+
 def run_product(case, ck):
     from nutils import function
     res = ck.res
@@ -1314,7 +1530,7 @@ def finalize(m, tier, seed):
                n_triples=len(m.sets.get('triples', ())), triples_sample=sorted(m.sets.get('triples', ()))[:40],
                refusals=pre('refusal/'), skipped=pre('skipped/'), empty=pre('empty/'), cases_refused=c.get('cases_refused', 0),
                marginal=c.get('marginal', 0), marginal_by_identity=pre('marginal/'), harness=pre('harness/'),
-               trimmed=pre('trimmed/'), facets_with_spanning_tangents=c.get('facets_with_spanning_tangents', 0), exterior_normal_sign=pre('exterior_normal_sign/'),
+               trimmed=pre('trimmed/'), basislevel=pre('basislevel/'), facets_with_spanning_tangents=c.get('facets_with_spanning_tangents', 0), exterior_normal_sign=pre('exterior_normal_sign/'),
                max_gauss_degree=m.maxima.get('max_gauss_degree'), cases_skipped_deadline=c.get('cases_skipped_deadline', 0))
     inc = None
     need = ['grad', 'div', 'curl', 'laplace', 'symgrad', 'hessian', '|n|=1', 'n.t=0', 'n+opposite(n)=0', 'jump(x)=0',
@@ -1324,16 +1540,18 @@ def finalize(m, tier, seed):
             'grad (spaces=)', 'per-space divergence theorem: boundary integral == closed form',
             'trimmed normal points towards decreasing level set', 'divergence theorem on trimmed domain: boundary integral == volume integral']
     missing = [k for k in need if not cov['identities_checked'].get(k)]
-    if cov['evaluations'] < 0.5 * NCASES[tier]:
-        inc = f"only {cov['evaluations']} of {NCASES[tier]} cases ran before the deadline"
+    if cov['evaluations'] < 0.5 * ncases(tier):
+        inc = f"only {cov['evaluations']} of {ncases(tier)} cases ran before the deadline"
     elif missing:
         inc = 'identities never reached: ' + ', '.join(missing)
+    elif c.get('basislevel/identities with basis level coarser than sample level', 0) < 0.5 * ncases(tier):
+        inc = 'too few identities evaluated with a basis level coarser than the sample level: %d' % c.get('basislevel/identities with basis level coarser than sample level', 0)
     elif not all(bysample.get(s) for s in ('interior', 'boundary', 'interface')):
         inc = 'a sample kind was never reached'
     elif cov['marginal'] > 0.005 * max(1, cov['comparisons']):
         inc = f"{cov['marginal']} of {cov['comparisons']} comparisons fell in the marginal band"
     elif cov['harness']:
         inc = f"harness inconsistency: {cov['harness']}"
-    elif cov['distinct_nontrivial'] < 0.4 * NCASES[tier]:
+    elif cov['distinct_nontrivial'] < 0.4 * ncases(tier):
         inc = 'too few distinct non-trivial cases'
     return dict(coverage=cov, inconclusive=inc)
